@@ -158,19 +158,23 @@ def minimise(case, sig, budget=80):
 
 # ------------------------------------------------------------------------------------------------ real threads: first wait of a memory
 # vsched switches threads only at synchronisation calls; an access that bypasses the mutex altogether (a lock-free "fast path")
-# is invisible to it.  This job runs the hand-over  { T1: wait32(a, 0, 2 s) }  ||  { T2: store32(a, 1); notify(a, 1) }  with real
+# is invisible to it.  This job runs the hand-over  { T1: wait32(a, 0, no timeout) }  ||  { T2: store32(a, 1); notify(a, 1) }  with real
 # threads on a FRESH memory each round (the first wait creates the wait-list structures) with a swept start skew, in an optimised
 # build and in a ThreadSanitizer build.  Whatever the interleaving, exactly two outcomes are linearizable:
 #   (wait = 1 not-equal, notify = 0)  - the store came before the waiter looked
 #   (wait = 0 woken,     notify = 1)  - the waiter was enqueued before the notify took the mutex
-# a timeout (2) or any other pair is a lost wake-up / phantom count; any ThreadSanitizer report is a data race.
+# any other pair is a phantom count, and a lost wake-up leaves the waiter blocked for good: a watchdog (alarm, 120 s per round
+# where a round takes microseconds) ends the run with a distinct status; any ThreadSanitizer report is a data race.
 RACE_DRIVER = r'''
 #include <stdio.h>
 #include <stdlib.h>
 #include <string.h>
 #include <pthread.h>
+#include <unistd.h>
+#include <signal.h>
 #include "m.h"
 void trap(Trap t) { fprintf(stderr, "trap %d\n", (int)t); abort(); }
+static void on_alarm(int s) { static const char msg[] = "HANG: a waiter was never woken\n"; (void)s; (void)!write(1, msg, sizeof msg - 1); _exit(4); }
 #ifdef VF_IMPORTED_MEMORY
 static wasmMemory* vf_shared;
 static void* vf_resolve(const char* module, const char* name) {
@@ -188,14 +192,16 @@ static volatile int skew_w, skew_n;
 static U32 ADDR;
 static U32 wres, nres;
 static void spin(int n) { volatile int k; for (k = 0; k < n; k++) { } }
-static void* waiter(void* p) { (void)p; pthread_barrier_wait(&bar); spin(skew_w); wres = m_wait32(inst, ADDR, 0, 2000000000ULL); return NULL; }
+static void* waiter(void* p) { (void)p; pthread_barrier_wait(&bar); spin(skew_w); wres = m_wait32(inst, ADDR, 0, (U64)-1); return NULL; }
 static void* notifier(void* p) { (void)p; pthread_barrier_wait(&bar); spin(skew_n); m_store32(inst, ADDR, 1); nres = m_notify(inst, ADDR, 1); return NULL; }
 int main(int argc, char** argv) {
     int rounds = atoi(argv[1]), r, bad = 0; unsigned long c10 = 0, c01 = 0;
     (void)argc;
     ADDR = (U32)atoi(argv[2]);
+    signal(SIGALRM, on_alarm);
     for (r = 0; r < rounds; r++) {
         pthread_t a, b;
+        alarm(120);
         inst = (mInstance*)calloc(1, sizeof(mInstance));
 #ifdef VF_IMPORTED_MEMORY
         vf_shared = wasmMemoryAllocate(1, VF_IMPORTED_MEMORY, true);
@@ -250,6 +256,8 @@ def run_race(case):
     for ln in out.splitlines():
         if ln.startswith('R '):
             stats = [int(x) for x in ln.split()[1:]]
+    if r.returncode == 4:
+        return ('race-lost-wakeup', 'first wait of a memory racing with store+notify: the waiter was never woken (watchdog after 120 s)'), stats
     if r.returncode == 3:
         return ('race-outcome', 'first wait of a memory racing with store+notify: ' + ' | '.join(l for l in out.splitlines() if l.startswith('BAD'))[:400]), stats
     if r.returncode != 0:
